@@ -115,6 +115,11 @@ def explore(ctx):
                       "first-mention order, network pairs; thorough: <=5 branches ncomp{1,2,3} + 6 branches ncomp{1,2}, network triples "
                       "(full configuration product up to 4 branches / pairs, lean configuration beyond)")
     ctx.map("work", [dict(it, cfg=(cfg if (ctx.tier == "quick" or _is_small(it)) else LEAN)) for it in items])
+    # assumption monitor on one representative per shape class (reported, never part of the verdict)
+    reps = [{"kind": "branch", "ncomp": 3}, {"kind": "cell", "parents": [-1, 0, 0, 1], "ncomps": [1, 1, 2, 1]},
+            {"kind": "net", "cells": [CATALOGUE[5], CATALOGUE[5]]}]
+    mon = ctx.map("monitor", [{"desc": d} for d in reps] + [{"desc": reps[1], "with_hh": True}], absorb=False)
+    ctx.note("assumption_monitor", [r.get("monitor", r.get("error", "")) for _, r in mon])
 
 
 def _stim(n, val):
@@ -150,6 +155,71 @@ def check_one(desc, valuation_id, dt, scheme, backend, module=None):
         if be > 1e-11:
             return "violation", {"rule": "backward_error", "max_err": be, "got": got.tolist(), "ref": ref.tolist()}
     return "ok", {"ref_digest": digest([round(float(x), 9) for x in ref]), "moved": bool(np.max(np.abs(ref - val["v"])) > 1e-9)}
+
+
+def monitor(item):
+    """Assumption monitor (DESIGN §4; never part of the verdict): trace one voltage step with respect to (states, parameters) and
+    list the value-dependent control-flow / comparison primitives in the jaxpr.  For a fixed shape the update should be
+    straight-line arithmetic in the parameter values, which is what lets generic valuations stand for all positive values."""
+    import jax
+    import jax.numpy as jnp
+    from jaxley.integrate import build_init_and_step_fn
+
+    desc = item["desc"]
+    parents, ncomps = build.forest_of_desc(desc)
+    n = int(sum(ncomps))
+    module = build.module_of(desc)
+    build.apply_passive_valuation(module, vals.valuation(n, 1))
+    if item.get("with_hh"):
+        from jaxley.channels import HH
+
+        module.insert(HH())  # non-vacuity control: the exp clip and the x/expm1 guard ARE value-dependent
+    found = {}
+    for backend in BACKENDS:
+        for scheme in ("bwd_euler", "crank_nicolson"):
+            module.to_jax()
+            init_fn, step_fn = build_init_and_step_fn(module, voltage_solver=backend, solver=scheme)
+            states, params = init_fn([], None, None, 0.025)
+
+            def f(states, params):
+                return step_fn(dict(states), params, {"i": jnp.asarray([0.1])}, {"i": np.asarray([0])}, 0.025)["v"]
+
+            try:
+                jaxpr = jax.make_jaxpr(f)(states, params)
+            except Exception as e:
+                found[f"{backend}:{scheme}"] = f"not traceable: {type(e).__name__}"
+                continue
+            prims = {}
+            WATCH = ("cond", "while", "select_n", "lt", "le", "gt", "ge", "eq", "ne", "sign", "abs", "max", "min", "clamp",
+                     "sort", "argmax", "argmin", "floor", "ceil", "round")
+
+            def subjaxprs(eqn):
+                for v in eqn.params.values():
+                    for w in (v if isinstance(v, (list, tuple)) else [v]):
+                        sub = getattr(w, "jaxpr", None)
+                        if sub is not None:
+                            yield sub if hasattr(sub, "eqns") else sub.jaxpr
+                        elif hasattr(w, "eqns"):
+                            yield w
+
+            def walk(jp, tainted_in):
+                """Data-flow: only primitives with an operand that depends on the traced (float) inputs are value-dependent."""
+                tainted = set(id(v) for v, t in zip(jp.invars, tainted_in) if t)
+                for eqn in jp.eqns:
+                    ops = [hasattr(v, "count") and id(v) in tainted for v in eqn.invars]
+                    dep = any(ops)
+                    if dep and eqn.primitive.name in WATCH:
+                        prims[eqn.primitive.name] = prims.get(eqn.primitive.name, 0) + 1
+                    for sub in subjaxprs(eqn):
+                        t_in = ops if len(sub.invars) == len(ops) else [dep] * len(sub.invars)
+                        walk(sub, t_in)
+                    if dep:
+                        for o in eqn.outvars:
+                            tainted.add(id(o))
+
+            walk(jaxpr.jaxpr, [True] * len(jaxpr.jaxpr.invars))
+            found[f"{backend}:{scheme}"] = prims
+    return {"evals": 0, "monitor": {"desc": desc, "with_hh_control": bool(item.get("with_hh")), "value_dependent_primitives": found}}
 
 
 def work(item):
